@@ -84,7 +84,7 @@ theorem mutate_independent (g : Option Nat → Option Nat) (n : Nat) (e : HExpr)
   · exact clone_deeper_shares_no_node g n e hf k hk hc
 
 /-- the shallow `clone()` by contrast shares its children: a change below the root IS seen (documented behaviour) -/
-example : mutate 2 (fun a _ => (a, [])) (clone 10 sample).1 ≠ (clone 10 sample).1 := by decide
+example : same (mutate 2 (fun a _ => (a, [])) (clone 10 sample).1) (clone 10 sample).1 = false := by decide
 
 /-! ### subst -/
 
@@ -107,8 +107,9 @@ theorem subst_self (s : Nat) (r : HExpr) (n : Nat) (e : HExpr) (hn : noNaN e = t
     equal (subst s r n e).1 e = true :=
   subst_self_equal s r n e hn (wellBuilt_of_parseBuilt e hb) hr
 
-example : ∀ i a sub, HExpr.node i a sub ∈ subtrees sample → isIdentOf 5 a = true → equal (idt 99 5) (HExpr.node i a sub) = true := by
-  decide
+example : (subtrees sample).all (fun x => match x with
+    | .node _ a _ => !isIdentOf 5 a || equal (idt 99 5) x
+    | .null => true) = true := by decide
 
 /-! ### equal distinguishes single-node perturbations -/
 
@@ -142,10 +143,10 @@ theorem equal_order_differs (i j : Nat) (a : Attr) (x y : HExpr) (pre mid post :
   | false =>
     simp only [Bool.false_eq_true, if_false]
     refine equalL_false_at _ pre.length _ _ ?_ ?_ ?_ ?_
-    · rw [hsz]; simp; omega
+    · rw [hsz]; simp
     · simpa [List.getD_eq_getElem?_getD, List.getElem?_append_right] using h
-    · simp; omega
-    · simp; omega
+    · simp
+    · simp
 
 /-- **any** single-node perturbation: rebuild the path to the node (fresh ancestors, as `clone()` + assignment does) and put a
     tree that is not `equal` to the old sub-tree in its place — the whole trees are not `equal` -/
